@@ -803,11 +803,13 @@ class CompositeEnvelope:
                 composite_envelopes.append(e.composite_envelope)
 
         ce_container = None
+        merged_containers: List[CompositeEnvelopeContainer] = []
         for ce in composite_envelopes:
             assert isinstance(
                 ce, CompositeEnvelope
             ), "ce should be CompositeEnvelope type"
             state_objs.extend(ce.state_objs)
+            merged_containers.append(CompositeEnvelope._containers[ce.uid])
             if ce_container is None:
                 ce_container = CompositeEnvelope._containers[ce.uid]
             elif CompositeEnvelope._containers[ce.uid] is not ce_container:
@@ -828,6 +830,14 @@ class CompositeEnvelope:
         if not CompositeEnvelope._instances.get(self.uid):
             CompositeEnvelope._instances[self.uid] = []
         CompositeEnvelope._instances[self.uid].append(self)
+        # Handles of earlier merges still name a merged container: they follow
+        for handles in CompositeEnvelope._instances.values():
+            for handle in handles:
+                if any(
+                    CompositeEnvelope._containers[handle.uid] is container
+                    for container in merged_containers
+                ):
+                    handle.uid = self.uid
         self.update_composite_envelope_pointers()
         # Product states of the merged containers moved to new positions
         ce_container.update_all_indices()
